@@ -129,7 +129,7 @@ def _check_world(case, vs, ls, query_only):
     li = {id(l): i for i, l in enumerate(ls)}
     f = graphs.make_filter(case["f"])
     fz = graphs.is_falsy(case["f"])
-    ff1 = graphs.real_filter1(f, li, falsy=fz)
+    ff1 = graphs.real_filter1(f, li, falsy=fz, defaulted=bool(case.get("copy", 0) == 0 and case["unlink"][0] % 2))
     ff2 = None if f is None else (lambda e, v: f(li[id(e)]))
     classes = set()
     if fz:
